@@ -516,7 +516,9 @@ def dataset_multiset(dataset):
 
 
 def int_like(e):
-    return isinstance(e, int) or (isinstance(e, str) and e.isdigit())
+    """an int, or a string made of decimal digits only (what int() converts without sign, blank or underscore);
+    str.isdigit() would also accept superscripts such as '\u00b2', which int() refuses"""
+    return isinstance(e, int) or (isinstance(e, str) and e.isdecimal())
 
 
 def expected_type_is_int(dataset):
